@@ -265,7 +265,8 @@ func (app *App) txChecker() txChecker {
 		if err != nil {
 			app.logger.Errorf("checkTx failed to deserialize msg: %v, error: %s ", msg, err)
 		}
-		if err == nil && !isCanonicalEncoding(tx, msg.Tx) {
+		// (a decoding error leaves the fields that did decode in place: such bytes are not canonical either)
+		if err != nil || !isCanonicalEncoding(tx, msg.Tx) {
 			app.Context.check.DiscardTxSession()
 			return ResponseCheckTx{Code: CodeNotOK.uint32(), Log: errNonCanonicalTx}
 		}
@@ -334,7 +335,7 @@ func (app *App) txDeliverer() txDeliverer {
 		if err != nil {
 			app.logger.Errorf("deliverTx failed to deserialize msg: %v, error: %s ", msg, err)
 		}
-		if err == nil && !isCanonicalEncoding(tx, msg.Tx) {
+		if err != nil || !isCanonicalEncoding(tx, msg.Tx) {
 			app.Context.deliver.DiscardTxSession()
 			return ResponseDeliverTx{Code: CodeNotOK.uint32(), Log: errNonCanonicalTx}
 		}
